@@ -11,6 +11,16 @@ HEADER = ("From TT Require Import Model.Doc Gen.StyleTables Model.Isd Model.IsdC
           "Open Scope Z_scope.\n")
 
 
+def region_leaves(isd):
+    """region id -> text and line-break leaves in document order, regions without leaves left out"""
+    import ttconv.model as m
+    out = {}
+    for r in isd.iter_regions():
+        ls = [e.get_text() if isinstance(e, m.Text) else "<br>" for e in r.dfs_iterator() if isinstance(e, (m.Text, m.Br))]
+        if ls: out[r.get_id()] = ls
+    return out
+
+
 def main():
     run = C.Run("C01", "proof")
     run.hygiene()
@@ -29,6 +39,8 @@ def main():
     rng = run.rng
     blocks, docs, nq, n_nonempty, n_err, sizes = [], {}, 0, 0, 0, []
     n_edited, edits = 0, {}
+    n_cached, cached_bad = 0, []
+    from ttconv.isd import ISD
     distinct = set()
     for k in range(ndocs):
         prof = k % 3
@@ -46,6 +58,21 @@ def main():
                 if lit != prev: distinct.add((k, lit.__hash__()))
             prev = lit
         nq += len(qs); sizes.append(g.n)
+        # a snapshot computed WITH the significant-times object is a snapshot too: it must show the same text leaves, region by
+        # region, as the one computed without (judged above by M and S); structure and empty regions are C14's business
+        try:
+            sig = ISD.significant_times(d)
+        except Exception:
+            sig = None
+        if sig is not None:
+            for t in rng.sample(qs, min(5, len(qs))):
+                try:
+                    a = ISD.from_model(d, t); b = ISD.from_model(d, t, sig)
+                except Exception:
+                    continue
+                n_cached += 1
+                la, lb = region_leaves(a), region_leaves(b)
+                if la != lb: cached_bad.append((k, t, la, lb))
         defs = f"Definition d{k} := {L.doc_lit(d)}.\nDefinition q{k} : list (Q * option (list elem)) := [{'; '.join(items)}]."
         blocks.append((k, defs, [f"cases_isd d{k} q{k}", f"cases_leaves d{k} q{k}", f"cases_ruby_err d{k} q{k}", f"[doc_wf d{k}]"], [len(qs)] * 3 + [1]))
         docs[k] = (d, qs)
@@ -88,6 +115,11 @@ def main():
     if s_bad:
         run.violation(f"snapshot leaves differ from the TTML2 specification (document {s_bad[0][0]}, time index {s_bad[0][1]})",
                       dict(kind="S-on-code", spec="coq/Spec/IsdSpec.v leaves_spec", first=replay(s_bad[0]), count=len(s_bad)))
+    if cached_bad:
+        k, t, la, lb = cached_bad[0]
+        run.violation(f"the snapshot computed with the significant-times object shows other text than the one computed without (document {k}, t={t}; {len(cached_bad)} of {n_cached} pairs)",
+                      dict(kind="S-on-code", spec="same leaves per region with and without SignificantTimes", document=L.doc_lit(docs[k][0]), time=str(t),
+                           without=la, with_sig_times=lb, count=len(cached_bad)))
     if (m_bad or broken or not proofs_ok or not_wf) and not s_bad:
         what = []
         if not_wf: what.append(f"Spec/DocWf.v doc_wf is false of {len(not_wf)} documents built through the model API (first: document {sorted(not_wf)[0]}): the hypothesis of C01_snapshot is not what the API enforces")
@@ -97,7 +129,7 @@ def main():
         run.violation("; ".join(what), dict(kind="broken-tie", theorem_file="coq/Properties/C01.v", proofs_ok=proofs_ok,
                                             correspondence="Model/Isd.v isd vs ttconv.isd.ISD.from_model",
                                             first=replay(m_bad[0]) if m_bad else None), found_input=False)
-    run.cov.update(evaluations=nq, distinct_nontrivial=len(distinct),
+    run.cov.update(cached_pairs_compared=n_cached, evaluations=nq, distinct_nontrivial=len(distinct),
                    rule="random well-formed documents (0-3 timed regions, body/div/div/p/span/br/text and the four ruby patterns, "
                         "region references at any level, display specified/animated/initial, xml:space) x query times = every absolute "
                         "begin/end computed by the harness from raw offsets, each -/+ 1 ms, midpoints, 0 and last+1 (sampled down); every 4th "
